@@ -182,10 +182,13 @@ func mergeSameAlias(selections []*graphql.Selection) ([]*graphql.Selection, erro
 				isLastSelectionSetCopied = true
 			}
 
-			seenSelections := make(map[string]struct{}, len(selection.SelectionSet.Selections))
+			// De-duplicate by identity, like the fragments below: two different
+			// sub-selections with the same alias both have to be kept (they are
+			// merged when the sub-selections are flattened).
+			seenSelections := make(map[*graphql.Selection]struct{}, len(selection.SelectionSet.Selections))
 			for _, s := range selection.SelectionSet.Selections {
-				if _, ok := seenSelections[s.Alias]; !ok {
-					seenSelections[s.Alias] = struct{}{}
+				if _, ok := seenSelections[s]; !ok {
+					seenSelections[s] = struct{}{}
 					last.SelectionSet.Selections = append(last.SelectionSet.Selections, s)
 				}
 			}
